@@ -123,6 +123,7 @@ func workerMain(t *testing.T) {
 		b, _ := json.Marshal(l)
 		out.Write(append(b, '\n'))
 	}
+	hbFunc = func() { emit(wline{Type: "hb"}) }
 	st := NewStats()
 	deadline := time.Now().Add(budget)
 	for idx := uint64(wi); idx < uint64(runs); idx += uint64(nw) {
@@ -320,6 +321,7 @@ func replayMain(t *testing.T) {
 		os.Exit(2)
 	}
 	relax := parseRelax(os.Getenv("VERIF_RELAX"))
+	hbFunc = func() { fmt.Println("HB") }
 	var v *Violation
 	if c.S["mode"] == "race" {
 		// replay of a data race: run the case free-running in the -race build
@@ -345,23 +347,61 @@ func replayMain(t *testing.T) {
 }
 
 func runReplay(path string, relax string) (*replayResult, error) {
-	cmd := exec.Command(os.Args[0], "-test.run", "^TestVerif$", "-test.timeout", "30m")
+	cmd := exec.Command(os.Args[0], "-test.run", "^TestVerif$", "-test.timeout", "0")
 	cmd.Env = append(os.Environ(), "VERIF_MODE=replay", "VERIF_REPLAY="+path, "VERIF_RELAX="+relax, "GOMAXPROCS=2")
-	outb, err := cmd.CombinedOutput()
-	for _, l := range strings.Split(string(outb), "\n") {
-		if strings.HasPrefix(l, "REPLAY-RESULT ") {
-			r := &replayResult{}
-			if e := json.Unmarshal([]byte(l[len("REPLAY-RESULT "):]), r); e != nil {
-				return nil, e
+	pr, pw, err := os.Pipe()
+	if err != nil {
+		return nil, err
+	}
+	cmd.Stdout, cmd.Stderr = pw, pw
+	if err := cmd.Start(); err != nil {
+		return nil, err
+	}
+	pw.Close()
+	lines := make(chan string, 64)
+	go func() {
+		sc := bufio.NewScanner(pr)
+		sc.Buffer(make([]byte, 1<<20), 64<<20)
+		for sc.Scan() {
+			lines <- sc.Text()
+		}
+		close(lines)
+	}()
+	quiet := time.Duration(envInt("VERIF_RUN_TIMEOUT_S", 150)) * time.Second
+	var out []string
+	timer := time.NewTimer(quiet)
+	for {
+		select {
+		case l, ok := <-lines:
+			if !ok {
+				cmd.Wait()
+				for _, l := range out {
+					if strings.HasPrefix(l, "REPLAY-RESULT ") {
+						r := &replayResult{}
+						if e := json.Unmarshal([]byte(l[len("REPLAY-RESULT "):]), r); e != nil {
+							return nil, e
+						}
+						return r, nil
+					}
+				}
+				return nil, fmt.Errorf("replay process died without a result: %s", tail(strings.Join(out, "\n"), 2500))
 			}
-			return r, nil
+			if l != "HB" {
+				out = append(out, l)
+			}
+			if !timer.Stop() {
+				select {
+				case <-timer.C:
+				default:
+				}
+			}
+			timer.Reset(quiet)
+		case <-timer.C:
+			cmd.Process.Kill()
+			cmd.Wait()
+			return nil, fmt.Errorf("replay process showed no sign of life for %v (spinning or blocked outside the simulator)", quiet)
 		}
 	}
-	tail := string(outb)
-	if len(tail) > 3000 {
-		tail = tail[len(tail)-3000:]
-	}
-	return nil, fmt.Errorf("replay process gave no result (err=%v): %s", err, tail)
 }
 
 // ---------------------------------------------------------------- known findings
@@ -497,7 +537,7 @@ func superMain(t *testing.T) int {
 	}
 	results := make([]wres, nw)
 	var wg sync.WaitGroup
-	perRunTimeout := time.Duration(envInt("VERIF_RUN_TIMEOUT_S", 600)) * time.Second
+	perRunTimeout := time.Duration(envInt("VERIF_RUN_TIMEOUT_S", 150)) * time.Second
 	for i := 0; i < nw; i++ {
 		wg.Add(1)
 		go func(i int) {
@@ -563,6 +603,12 @@ func superMain(t *testing.T) int {
 	// 3. collect
 	total := NewStats()
 	broken := false
+	type diedRun struct {
+		worker    int
+		idx, seed uint64
+		log       string
+	}
+	var died []diedRun
 	var msSum int64
 	for i, r := range results {
 		started := map[uint64]uint64{}
@@ -607,21 +653,50 @@ func superMain(t *testing.T) int {
 			}
 		}
 		if !gotStats || len(started) > 0 {
-			// the worker died or was killed inside a run: replay that run alone
+			// the worker died or was killed inside a run: replay that run alone (below)
 			for idx, seed := range started {
 				fmt.Printf("worker %d died in run idx=%d seed=%d (%v); replaying alone\n", i, idx, seed, r.err)
-				v := replayDied(ck, prop, master, idx, seed, tier, relaxCSV)
-				if v == "" {
-					fmt.Println("  not reproducible; worker log tail:\n" + r.log)
-					broken = true
-				} else {
-					violations = append(violations, v)
-				}
+				died = append(died, diedRun{i, idx, seed, r.log})
 			}
 			if len(started) == 0 {
 				fmt.Printf("worker %d ended without statistics (%v):\n%s\n", i, r.err, r.log)
 				broken = true
 			}
+		}
+	}
+	// runs that killed (or hung) their worker: replay in parallel, one confirmed violation is enough
+	if len(died) > 0 {
+		var dmu sync.Mutex
+		var dwg sync.WaitGroup
+		confirmed, failed := 0, 0
+		sem := make(chan struct{}, 8)
+		for _, d := range died {
+			dwg.Add(1)
+			go func(d diedRun) {
+				defer dwg.Done()
+				sem <- struct{}{}
+				defer func() { <-sem }()
+				dmu.Lock()
+				skip := confirmed > 0
+				dmu.Unlock()
+				if skip {
+					return
+				}
+				v := replayDied(ck, prop, master, d.idx, d.seed, tier, relaxCSV)
+				dmu.Lock()
+				defer dmu.Unlock()
+				if v == "" {
+					failed++
+					fmt.Printf("  run idx=%d not reproducible; worker log tail:\n%s\n", d.idx, d.log)
+				} else {
+					confirmed++
+					violations = append(violations, v)
+				}
+			}(d)
+		}
+		dwg.Wait()
+		if confirmed == 0 && failed > 0 {
+			broken = true
 		}
 	}
 
@@ -686,16 +761,16 @@ func replayDied(ck *Check, prop string, master, idx, seed uint64, tier, relaxCSV
 
 func writeEvidence(ck *Check, prop, tier string, master uint64, st *Stats, wall float64, nviol, nknown int, relax []string) {
 	cov := map[string]any{
-		"evaluations":         st.Evals,
-		"distinct_nontrivial": len(st.Distinct),
-		"rule":                ck.Rule,
-		"samples":             st.Samples,
-		"runs_per_hour":       int64(float64(st.Evals) / wall * 3600),
-		"simulated_time_s":    st.C["sim_time_s"],
-		"counters":            st.C,
+		"evaluations":           st.Evals,
+		"distinct_nontrivial":   len(st.Distinct),
+		"rule":                  ck.Rule,
+		"samples":               st.Samples,
+		"runs_per_hour":         int64(float64(st.Evals) / wall * 3600),
+		"simulated_time_s":      st.C["sim_time_s"],
+		"counters":              st.C,
 		"known_findings_active": nknown,
-		"relaxations_active":  relax,
-		"real_vs_stub":        "real: pkg/fs, pkg/operations, pkg/recovery, pkg/persisters (SQLite), pkg/tape on tmpfs files, codecs, crypto; instrumented by overlay: sync.Mutex, go statements, os.Stat/Open in pkg/tape; stub/not run: pkg/mtio tape ioctls (DriveIsRegular=false), cmd/stfs",
+		"relaxations_active":    relax,
+		"real_vs_stub":          "real: pkg/fs, pkg/operations, pkg/recovery, pkg/persisters (SQLite), pkg/tape on tmpfs files, codecs, crypto; instrumented by overlay: sync.Mutex, go statements, os.Stat/Open in pkg/tape; stub/not run: pkg/mtio tape ioctls (DriveIsRegular=false), cmd/stfs",
 	}
 	if len(st.Samples) == 0 {
 		cov["samples"] = []string{"(no sample recorded)"}
